@@ -121,6 +121,31 @@ Definition wrap (z : Z) : Z :=
 Definition int_dec (z : Z) : Z := wrap (z - 1).
 Definition dec_overflows (z : Z) : bool := (z - 1 <? int_min)%Z.
 
+(* ---------- what the interpreter takes from the headers ---------- *)
+
+Record leafs := mkLeafs {
+  lf_step : (Z -> Z) -> Z -> Z * bool;     (* decrement-and-test of the counter wrapper: (new value, remove?) *)
+  lf_bounded : bool;                       (* the counter is a machine int (overflow is recorded) *)
+  lf_counter_rbc : bool;                   (* counter wrapper: removal precedes the call of the wrapped listener *)
+  lf_cond_rbc : bool;                      (* conditional wrapper: likewise *)
+  lf_pass : bool -> bool;                  (* is the condition given the arguments, as a function of "accepts them" *)
+  lf_counter_shared : bool;                (* the wrapper's state is reached only through the shared Data *)
+  lf_cond_shared : bool
+}.
+
+(* MECHANISM: the wrappers as the headers define them now (tie A) *)
+Definition gen_leafs (islist : bool) : leafs :=
+  mkLeafs (GenAutoRemove.counter_step islist) true
+          (GenAutoRemove.counter_removes_before_call islist) (GenAutoRemove.cond_removes_before_call islist)
+          (GenAutoRemove.cond_passes_args islist)
+          (GenAutoRemove.counter_state_shared islist) (GenAutoRemove.cond_state_shared islist).
+
+(* SPECIFICATION: the wrappers as C16 promises them, independent of the headers: an ideal
+   counter (no overflow) that detaches with the max(n,1)-th trigger, detach before the call,
+   the condition evaluated once with the arguments iff it accepts them, no state in the helper *)
+Definition spec_leafs : leafs :=
+  mkLeafs (fun _ n => ((n - 1)%Z, (n - 1 <=? 0)%Z)) false true true (fun w => w) true true.
+
 (* ---------- traces: what concerns one entry (newest first) ---------- *)
 
 Fixpoint trigs_of (h : nat) (tr : list aev) : list Z :=
@@ -143,7 +168,7 @@ Fixpoint evals_of (h : nat) (tr : list aev) : list (nat * option Z * bool) :=
   end.
 
 Section AInterp.
-  Variable islist : bool.                              (* which specialisation of the helpers serves the target *)
+  Variable lf : leafs.                                 (* gen_leafs islist (the code) or spec_leafs (the promise) *)
   Variable behav : nat -> nat -> list acmd.            (* listener c, n-th activation: what it does *)
   Variable cverdict : nat -> nat -> bool.              (* condition p, n-th evaluation: verdict *)
 
@@ -156,8 +181,8 @@ Section AInterp.
 
   Definition helper_unreferenced (st : astate) (b : nat) : bool :=
     match alookup b (ents st) with
-    | Some (_, SCounter _ _) => GenAutoRemove.counter_state_shared islist
-    | Some (_, SCond _ _ _) => GenAutoRemove.cond_state_shared islist
+    | Some (_, SCounter _ _) => lf_counter_shared lf
+    | Some (_, SCond _ _ _) => lf_cond_shared lf
     | _ => true
     end.
 
@@ -184,17 +209,17 @@ Section AInterp.
       | None => Some st
       | Some (_, SPlain c) => run_inner st h c k a
       | Some (k0, SCounter c _) =>
-          let st0 := touch_helper (GenAutoRemove.counter_state_shared islist) (alog st (ATrig h a)) h in
+          let st0 := touch_helper (lf_counter_shared lf) (alog st (ATrig h a)) h in
           let n := cellk (cells st0) h in
-          let '(n', due) := GenAutoRemove.counter_step islist int_dec n in
-          let st1 := upd_cells (if dec_overflows n then upd_ovfs st0 (h :: ovfs st0) else st0) (aset h n' (cells st0)) in
-          finish_wrapper (GenAutoRemove.counter_removes_before_call islist) due st1 h c k0 k a
+          let '(n', due) := lf_step lf int_dec n in
+          let st1 := upd_cells (if lf_bounded lf && dec_overflows n then upd_ovfs st0 (h :: ovfs st0) else st0) (aset h n' (cells st0)) in
+          finish_wrapper (lf_counter_rbc lf) due st1 h c k0 k a
       | Some (k0, SCond c p wa) =>
-          let st0 := touch_helper (GenAutoRemove.cond_state_shared islist) (alog st (ATrig h a)) h in
+          let st0 := touch_helper (lf_cond_shared lf) (alog st (ATrig h a)) h in
           let st1 := upd_pacts st0 (aset p (S (act_of (pacts st0) p)) (pacts st0)) in
           let v := cverdict p (act_of (pacts st1) p) in
-          let st2 := alog st1 (ACond h p (if GenAutoRemove.cond_passes_args islist wa then Some a else None) v) in
-          finish_wrapper (GenAutoRemove.cond_removes_before_call islist) v st2 h c k0 k a
+          let st2 := alog st1 (ACond h p (if lf_pass lf wa then Some a else None) v) in
+          finish_wrapper (lf_cond_rbc lf) v st2 h c k0 k a
       end.
 
     (* the snapshot rule on the list of key k *)
@@ -300,3 +325,6 @@ Section AInterp.
     | None => None
     end.
 End AInterp.
+
+(* mech = true: the code (for the specialisation islist); false: the specification *)
+Definition a_case (mech islist : bool) := a_run_case (if mech then gen_leafs islist else spec_leafs).
